@@ -145,6 +145,8 @@ func exec(op string) (res string) {
 		return execHist(op)
 	case "rsess", "rsessx":
 		return execRetry(op)
+	case "walk":
+		return execWalk(op)
 	}
 	return "bad-op"
 }
@@ -542,6 +544,10 @@ func main() {
 	}
 	// the retry tier draws from the PRNG after every other tier, so their scenarios are what they were
 	for k, v := range retryTier(r, out, tier) {
+		extra[k] = v
+	}
+	// the walk tier draws after the retry tier
+	for k, v := range walkTier(r, out, tier) {
 		extra[k] = v
 	}
 	out.Close(extra)
